@@ -37,6 +37,22 @@ SPEC = {
 }
 
 
+# attributes that hold a second reference to a child stored elsewhere (Exists(query): `self.query = query` and
+# `args=[query]`); the tree position is the other one, the alias has to follow it (checked by the C13 oracle)
+ALIASES = {('Exists', 'query'): ('args', 0), ('NotExists', 'query'): ('args', 0)}
+
+
+def stale_aliases(node):
+    """aliases of `node` that do not point to the child they stand for"""
+    out = []
+    for (cn, attr), (attr2, i) in ALIASES.items():
+        if type(node).__name__ == cn:
+            tgt = getattr(node, attr2, None)
+            if isinstance(tgt, (list, tuple)) and len(tgt) > i and getattr(node, attr, None) is not tgt[i]:
+                out.append((attr, attr2))
+    return out
+
+
 def kind_of(cls, attr, value_classes=()):
     """kind of slot `attr` of class `cls`; value_classes = class names seen in that slot"""
     if attr == 'alias':
@@ -76,7 +92,10 @@ def children(node):
         elif isinstance(v, dict):
             for k, x in v.items():
                 rec(attr, path + (k,), x)
+    cn = type(node).__name__
     for attr, v in vars(node).items():
+        if (cn, attr) in ALIASES:
+            continue
         rec(attr, (), v)
     return out
 
